@@ -172,6 +172,69 @@ func libdiffCase(rep *Report, s *glue.Subject, d MD, idx int) {
 	D := BuildDyn(v)
 	bad := func(key, detail string) { rep.Violate("C10", "libdiff/"+key, tn, detail, rc) }
 
+	// ---- through an Any: JSON and text of an Any holding the message, parsed back (the library re-encodes the
+	// embedded message deterministically, with AllowPartial): the same Any value as for the dynamic twin
+	if idx%5 == 2 {
+		av := v
+		if hasRequiredBelow(d) && idx%2 == 0 {
+			o2 := o
+			o2.OmitRequired = true
+			av = NewGen(seed^0x4a, o2).Msg(d, 0)
+			dropForeignNegZero(av, false)
+		}
+		AS, AD := BuildStruct(s.Zero, av), BuildDyn(av)
+		mkTypes := func(mt protoreflect.MessageType) *protoregistry.Types {
+			ts := new(protoregistry.Types)
+			_ = ts.RegisterMessage(mt)
+			return ts
+		}
+		through := func(m proto.Message, ts *protoregistry.Types, text bool) ([]byte, error) {
+			val, err := proto.MarshalOptions{AllowPartial: true, Deterministic: true}.Marshal(m)
+			if err != nil {
+				return nil, err
+			}
+			a := &anypb.Any{TypeUrl: "/" + tn, Value: val}
+			back := &anypb.Any{}
+			if text {
+				b, err := prototext.MarshalOptions{AllowPartial: true, Resolver: ts}.Marshal(a)
+				if err != nil {
+					return nil, err
+				}
+				if err := (prototext.UnmarshalOptions{AllowPartial: true, Resolver: ts}).Unmarshal(b, back); err != nil {
+					return nil, err
+				}
+			} else {
+				b, err := protojson.MarshalOptions{AllowPartial: true, Resolver: ts}.Marshal(a)
+				if err != nil {
+					return nil, err
+				}
+				if err := (protojson.UnmarshalOptions{AllowPartial: true, Resolver: ts}).Unmarshal(b, back); err != nil {
+					return nil, err
+				}
+			}
+			return back.Value, nil
+		}
+		pan, pmsg := safely(func() {
+			// types embedding Any themselves need those payload types resolvable too: fall back to the global registry there
+			if reachesAny(d) {
+				return
+			}
+			for _, text := range []bool{false, true} {
+				g1, e1 := through(AS, mkTypes(s.Zero.ProtoReflect().Type()), text)
+				g2, e2 := through(AD, mkTypes(dynamicpb.NewMessageType(d)), text)
+				rep.Count("C10", "through-any-roundtrips", 1)
+				if (e1 == nil) != (e2 == nil) {
+					bad("through-any/error", fmt.Sprintf("text=%v: an Any holding the message, rendered and parsed back: err=%v, dynamic twin err=%v", text, e1, e2))
+				} else if e1 == nil && !bytes.Equal(g1, g2) {
+					bad("through-any/value", fmt.Sprintf("text=%v: the Any value re-encoded by the library after parsing differs from the dynamic twin's: %s", text, firstDiff(g1, g2)))
+				}
+			}
+		})
+		if pan {
+			bad("through-any/panic", pmsg)
+		}
+	}
+
 	// ---- hand-built state: nil pointers as list elements / map values read as empty messages; the library
 	// algorithms see them exactly as the reference sees the corresponding empty messages
 	if idx%4 == 1 && !hasRequiredBelow(d) {
